@@ -100,7 +100,7 @@ def plan(tier, seed):
                 shards.append({"mp": mp, "importer": importer, "k": k, "lo": lo, "hi": lo + step,
                                "pat_size": 2,
                                "bound": f"statements<={k} patterns<=2" + (" (two statements: patterns<=1)" if tier == "quick" else "")})
-    return {"shards": shards, "require_nonzero": ["config:excluded", "config:included", "config:glob", "config:regex",
+    return {"shards": shards, "require_nonzero": ["config:excluded", "config:included", "config:glob", "config:regex", "config:regex-raw",
                                                   "external-kept", "external-dropped"]}
 
 
@@ -171,6 +171,14 @@ def configs(files, mp, pat_size):
             rx = tuple(glob_to_regex_model(p) for p in combo)
             yield ("regex", {"exclude_external_libraries": False, "regex_external_exclusions": rx}, True,
                    (lambda s, c=rx: any(re.match(p, s) for p in c)))
+    # raw regexes that are not anchored at the end (a regex is matched from the start of the name, so an
+    # escaped name also excludes every name it is a textual prefix of) and an explicit alternation
+    raw = [re.escape(n) for n in ext_names[:4]] + [re.escape(n)[:-1] for n in ext_names[:2] if len(n) > 2]
+    if len(ext_names) >= 2:
+        raw.append("(" + re.escape(ext_names[0]) + "|" + re.escape(ext_names[-1]) + ")$")
+    for p in dict.fromkeys(raw):
+        yield ("regex-raw", {"exclude_external_libraries": False, "regex_external_exclusions": (p,)}, True,
+               (lambda s, q=p: re.match(q, s) is not None))
 
 
 def run_shard(shard, tier, seed):
